@@ -139,17 +139,18 @@ func (dec *Decoder) applyInverseTransforms(pixels []uint32) []uint32 {
 		out = make([]uint32, numPix)
 	}
 
+	// Alternate between the two buffers: an inverse transform must never
+	// run with in == out, because the colour-indexing inverse expands packed
+	// pixels and would overwrite source pixels it has not read yet.
 	for n := dec.nextTransform - 1; n >= 0; n-- {
 		t := &dec.transforms[n]
 		inverseTransform(t, 0, t.YSize, rows, out)
-		rows = out
+		rows, out = out, rows
 	}
 
-	if dec.nextTransform == 0 {
-		// No transforms: output is the original pixels.
-		return pixels
-	}
-	return out[:numPix]
+	// After the loop rows holds the last output (or the original pixels
+	// when there was no transform).
+	return rows[:numPix]
 }
 
 // inverseTransform applies a single inverse transform to the pixel data.
